@@ -306,6 +306,14 @@ static void part2()
     verif_assert(vb == vc && !(vb != vc), 250);
     (void)mc;
     (void)fixed_equal;
+    // a moved-from vector that reports size() == 0 holds no elements: it equals exactly the empty vectors, itself included
+    Vec vm(std::move(va));
+    if (va.size() == 0)
+    {
+        eq_laws(va, vb, mb.n == 0, 260);
+        verif_assert(va == va && !(va != va), 264);
+        verif_assert((va == vm) == (ma.n == 0), 265);
+    }
 }
 
 // ---- relational ------------------------------------------------------------------------------------------------------
